@@ -48,3 +48,116 @@ package event
 //@   modifies nothing
 //@   flag emits opaque
 //@   flag allocs
+
+// ---------------------------------------------------------------------------------------------------------------
+// Matching rules per event kind (C11: matching listeners react, non-matching ones do not).  The definition a
+// listener waits for is whatever its instance hands out (a pure accessor).
+//@ func IDefinitionInstance.EventDefinition
+//@   assumed
+//@   pure
+//@   modifies nothing
+//@   flag emits none
+
+//@ spec func defOf(i IDefinitionInstance) schema.EventDefinitionInterface = i.EventDefinition()
+
+// A signal matches exactly the signal definitions that name it.
+//@ func (*SignalEvent).MatchesEventInstance
+//@   prop C11
+//@   modifies nothing
+//@   flag emits none
+//@   ensures [a-signal-matches-exactly-the-definitions-naming-it] result <==>
+//@             (is(defOf(instance), *schema.SignalEventDefinition) && defOf(instance).(*schema.SignalEventDefinition).SignalRefField != nil &&
+//@              string(*defOf(instance).(*schema.SignalEventDefinition).SignalRefField) == ev.signalRef)
+
+// A message matches the message definitions that name it and agree on the operation: both without one, or both with
+// the same one.
+//@ func (*MessageEvent).MatchesEventInstance
+//@   prop C11
+//@   modifies nothing
+//@   flag emits none
+//@   ensures [a-message-matches-on-name-and-operation] result <==>
+//@             (is(defOf(instance), *schema.MessageEventDefinition) && defOf(instance).(*schema.MessageEventDefinition).MessageRefField != nil &&
+//@              string(*defOf(instance).(*schema.MessageEventDefinition).MessageRefField) == ev.messageRef &&
+//@              ((ev.operationRef == nil && defOf(instance).(*schema.MessageEventDefinition).OperationRefField == nil) ||
+//@               (ev.operationRef != nil && defOf(instance).(*schema.MessageEventDefinition).OperationRefField != nil &&
+//@                string(*defOf(instance).(*schema.MessageEventDefinition).OperationRefField) == *ev.operationRef)))
+
+//@ func (*EscalationEvent).MatchesEventInstance
+//@   prop C11
+//@   modifies nothing
+//@   flag emits none
+//@   ensures [an-escalation-matches-exactly-the-definitions-naming-it] result <==>
+//@             (is(defOf(instance), *schema.EscalationEventDefinition) && defOf(instance).(*schema.EscalationEventDefinition).EscalationRefField != nil &&
+//@              string(*defOf(instance).(*schema.EscalationEventDefinition).EscalationRefField) == ev.escalationRef)
+
+//@ func (*ErrorEvent).MatchesEventInstance
+//@   prop C11
+//@   modifies nothing
+//@   flag emits none
+//@   ensures [an-error-matches-exactly-the-definitions-naming-it] result <==>
+//@             (is(defOf(instance), *schema.ErrorEventDefinition) && defOf(instance).(*schema.ErrorEventDefinition).ErrorRefField != nil &&
+//@              string(*defOf(instance).(*schema.ErrorEventDefinition).ErrorRefField) == ev.errorRef)
+
+// Kinds without data: the definition's kind decides.
+//@ func CancelEvent.MatchesEventInstance
+//@   prop C11
+//@   modifies nothing
+//@   flag emits none
+//@   ensures [a-cancel-event-matches-cancel-definitions] result <==> is(defOf(instance), *schema.CancelEventDefinition)
+//@ func TerminateEvent.MatchesEventInstance
+//@   prop C11
+//@   modifies nothing
+//@   flag emits none
+//@   ensures [a-terminate-event-matches-terminate-definitions] result <==> is(defOf(instance), *schema.TerminateEventDefinition)
+
+// Kinds no listener can wait for.
+//@ func EndEvent.MatchesEventInstance
+//@   prop C11
+//@   modifies nothing
+//@   flag emits none
+//@   ensures [end-events-match-no-listener] !result
+//@ func NoneEvent.MatchesEventInstance
+//@   prop C11
+//@   modifies nothing
+//@   flag emits none
+//@   ensures [none-events-match-no-listener] !result
+//@ func (*CompensationEvent).MatchesEventInstance
+//@   prop C11
+//@   modifies nothing
+//@   flag emits none
+//@   ensures [compensation-events-match-no-listener] !result
+
+// Timer and conditional events belong to one listener: the instance they were made for.
+//@ func TimerEvent.MatchesEventInstance
+//@   prop C11 C13
+//@   modifies nothing
+//@   flag emits none
+//@   ensures [a-timer-event-matches-only-its-own-listener] result <==> instance == ev.instance
+//@ func (*ConditionalEvent).MatchesEventInstance
+//@   prop C11
+//@   modifies nothing
+//@   flag emits none
+//@   ensures [a-conditional-event-matches-only-its-own-listener] result <==> instance == ev.instance
+
+// A link event matches the link definitions with the same target (or both without one) and the same sources in the
+// same order.
+//@ func (*LinkEvent).MatchesEventInstance
+//@   prop C11
+//@   modifies nothing
+//@   flag emits none
+//@   ensures [a-link-never-matches-another-kind] result ==> is(defOf(instance), *schema.LinkEventDefinition)
+//@   ensures [a-link-matches-on-target] result ==>
+//@             ((ev.target == nil && defOf(instance).(*schema.LinkEventDefinition).TargetField == nil) ||
+//@              (ev.target != nil && defOf(instance).(*schema.LinkEventDefinition).TargetField != nil &&
+//@               string(*defOf(instance).(*schema.LinkEventDefinition).TargetField) == *ev.target))
+//@   ensures [a-link-matches-on-every-source] result ==> len(ev.sources) == len(defOf(instance).(*schema.LinkEventDefinition).SourceField) &&
+//@             forall k int :: 0 <= k && k < len(ev.sources) ==> ev.sources[k] == string(defOf(instance).(*schema.LinkEventDefinition).SourceField[k])
+//@   ensures [agreeing-links-match] is(defOf(instance), *schema.LinkEventDefinition) &&
+//@             ((ev.target == nil && defOf(instance).(*schema.LinkEventDefinition).TargetField == nil) ||
+//@              (ev.target != nil && defOf(instance).(*schema.LinkEventDefinition).TargetField != nil &&
+//@               string(*defOf(instance).(*schema.LinkEventDefinition).TargetField) == *ev.target)) &&
+//@             len(ev.sources) == len(defOf(instance).(*schema.LinkEventDefinition).SourceField) &&
+//@             (forall k int :: 0 <= k && k < len(ev.sources) ==> ev.sources[k] == string(defOf(instance).(*schema.LinkEventDefinition).SourceField[k])) ==> result
+//@   defensive definition.Sources() == nil
+//@   loop 1 range ev.sources
+//@     invariant forall k int :: 0 <= k && k < rk1 ==> ev.sources[k] == string(defOf(instance).(*schema.LinkEventDefinition).SourceField[k])
